@@ -16,7 +16,7 @@ import (
 // C20 — hashed file-tree paths keep the parent/child relation; a trailing slash is neutral.
 
 // "\u00e9" and "e\u0301" render alike but are different byte strings: different folder names
-var c20Sigma = []string{"", "a", "b", "ab", "\u00e9", "e\u0301", " ", "s", "home", ".", "..", "a%20b", "100%", hexsha("x"), strings.Repeat("x", 300), "caf\xe9", "caf\xe8"} // hexsha("x"): a segment that looks like a sha256 digest; the last two: Latin-1 bytes that are not valid UTF-8
+var c20Sigma = []string{"", "a", "b", "ab", "\u00e9", "e\u0301", " ", "s", "home", ".", "..", "a%20b", "100%", hexsha("x"), strings.Repeat("x", 300), "caf\xe9", "caf\xe8", "a\\b", "a\\", "a:b"} // round 12: segments holding a backslash (inside and trailing) or a colon, bytes that other systems treat as separators; hexsha("x"): a segment that looks like a sha256 digest; the last two: Latin-1 bytes that are not valid UTF-8
 
 func c20Canon(segs []string) []string {
 	if len(segs) > 1 && segs[len(segs)-1] == "" {
@@ -139,7 +139,7 @@ func c20Enum(thorough bool) mc.Enum {
 		return cr
 	}})
 	// the real chain: provision a root, post a chain of folders, compare the returned Path with the plain-path hash
-	chainSigma := []string{"a", "b", "\u00e9", "e\u0301", " ", "home", "caf\xe9"}
+	chainSigma := []string{"a", "b", "\u00e9", "e\u0301", " ", "home", "caf\xe9", "a\\b"}
 	for _, c1 := range chainSigma {
 		for _, c2 := range chainSigma {
 			c1, c2 := c1, c2
@@ -199,7 +199,7 @@ func c20Chain(env world.Env, c1, c2 string, sigma []string, poster string) mc.Ca
 func init() {
 	CaseReplayers["C20/paths"] = func(r *mc.Run, c string) { r.ReplayCase(c20Enum(strings.Contains(c, "maxlen=5")), c) }
 	Props["C20"] = Prop{Level: "exploration", Run: func(r *mc.Run, tier string) {
-		r.Rules = append(r.Rules, "every segment sequence of length 1..4 (thorough: 5) over {\"\",a,b,ab,é (precomposed),é (e + combining accent),space,s,home,.,..,a%20b,100%,digest-shaped,300-byte,two names with Latin-1 bytes that are not valid UTF-8}: MerklePath vs an independent fold, trailing-slash neutrality, child = AddToMerkle(parent, sha256(child)), pairwise-distinct addresses; paths of every depth 1..260; plus 343 folder chains of depth 3 posted through the real ProvisionFileTree/PostFile handlers, by the owner and by a second account holding edit access. Non-trivial = sequences with >= 2 segments / posts")
+		r.Rules = append(r.Rules, "every segment sequence of length 1..4 (thorough: 5) over {\"\",a,b,ab,é (precomposed),é (e + combining accent),space,s,home,.,..,a%20b,100%,digest-shaped,300-byte,two names with Latin-1 bytes that are not valid UTF-8,a\\b,a\\ (trailing backslash),a:b}: MerklePath vs an independent fold, trailing-slash neutrality, child = AddToMerkle(parent, sha256(child)), pairwise-distinct addresses; paths of every depth 1..260; plus 512 folder chains of depth 3 posted through the real ProvisionFileTree/PostFile handlers, by the owner and by a second account holding edit access. Non-trivial = sequences with >= 2 segments / posts")
 		r.Assumptions = append(r.Assumptions, "SHA-256 collision freedom", "parents ending in '/' and empty or '/'-containing last segments are unspecified (the statement's clauses conflict there)")
 		r.AddEnum(c20Enum(tier == "thorough"), workers(), time.Time{})
 	}}
